@@ -184,69 +184,103 @@ Section Parse.
 
   Definition konst (x : atom) : Z := match x with AConst k => k | AVar _ => 0 end.
 
-  Definition emitted := (list vdecl * list row * list reg)%type.
-  Definition em_app (a b : emitted) : emitted :=
-    match a, b with (v1, r1, g1), (v2, r2, g2) => (v1 ++ v2, r1 ++ r2, g1 ++ g2) end.
-  Definition em_concat (l : list emitted) : emitted := fold_right em_app ([], [], []) l.
+  (* all sub-expressions, the node itself first *)
+  Fixpoint subs (e : expr) : list expr :=
+    e :: match e with
+         | Choose _ _ _ _ _ _ | Alloc _ _ _ _ => []
+         | Min _ kids | Max _ kids | Objective _ kids => flat_map subs kids
+         | LessThan _ x y => subs x ++ subs y
+         | Scale _ _ _ kid => subs kid
+         end.
 
-  Fixpoint emit (e : expr) : emitted :=
+  (* what ONE node adds to the model when it is parsed (its children are parsed on their own:
+     every node of the tree is parsed exactly once, Expression.cpp:519/1477/1549/1770/2000/2367) *)
+  Definition own_vars (e : expr) : list vdecl :=
     match e with
     | Choose n parts amount start dur util =>
         match parse e with
-        | PNo => ([], [], [])
+        | PNo => []
         | PU _ _ _ _ =>
-            let ps := sched parts in
-            (ind_decl n :: map (fun p => int_decl (VAlloc n p) 0 (Some (Z.min (qty0 pt p) amount))) ps,
-             [mkrow EQ (map (fun p => (1, AVar (VAlloc n p))) ps ++ [(- amount, AVar (VInd n))]) 0],
-             flat_map (fun p => map (fun t => (p, t, AVar (VAlloc n p))) (slots start dur)) ps)
+            ind_decl n :: map (fun p => int_decl (VAlloc n p) 0 (Some (Z.min (qty0 pt p) amount))) (sched parts)
         end
-    | Alloc n allocs start dur =>
-        ([], [], flat_map (fun pa => map (fun t => (fst pa, t, AConst (snd pa))) (slots start dur)) allocs)
-    | Min n kids =>
-        let rs := filter is_pu (map parse kids) in
-        let inds := filter is_var (map pu_ind rs) in
-        em_app
-          ([ind_decl n; int_decl (VStart n) 0 None; int_decl (VEnd n) 0 None],
-           flat_map (fun r => [mkrow GE [(1, pu_start r); (-1, AVar (VStart n))] 0;
-                               mkrow LE [(1, pu_end r); (-1, AVar (VEnd n))] 0]) rs
-           ++ match inds with
-              | [] => []
-              | _ => [mkrow EQ (map (fun i => (1, i)) inds ++ [(- Z.of_nat (length inds), AVar (VInd n))]) 0]
-              end,
-           [])
-          (em_concat (map emit kids))
+    | Alloc _ _ _ _ => []
+    | Min n kids => [ind_decl n; int_decl (VStart n) 0 None; int_decl (VEnd n) 0 None]
     | Max n kids =>
         let rs := filter is_pu (map parse kids) in
         let lb := list_min UINT_MAX (map (fun r => konst (pu_start r)) rs) in
         let sub := list_max 0 (map (fun r => konst (pu_start r)) rs) in
         let eub := list_max 0 (map (fun r => konst (pu_end r)) rs) in
-        em_app
-          ([int_decl (VStart n) (- lb) (Some sub); int_decl (VEnd n) 0 (Some eub); ind_decl n],
-           [mkrow GE (map (fun r => (konst (pu_start r), pu_ind r)) rs
-                      ++ [(lb, AConst 1); (- lb, AVar (VInd n)); (-1, AVar (VStart n))]) 0;
-            mkrow LE (map (fun r => (konst (pu_end r), pu_ind r)) rs ++ [(-1, AVar (VEnd n))]) 0;
-            mkrow EQ (map (fun r => (1, pu_ind r)) rs ++ [(-1, AVar (VInd n))]) 0],
-           [])
-          (em_concat (map emit kids))
+        [int_decl (VStart n) (- lb) (Some sub); int_decl (VEnd n) 0 (Some eub); ind_decl n]
     | LessThan n x y =>
-        em_app
-          (match parse x, parse y with
-           | PU sx ex ux ix, PU sy ey uy iy =>
-               match ex, sy with
-               | AConst _, AConst _ => ([], [], [])
-               | _, _ =>
-                   let inds := filter is_var [ix; iy] in
-                   ([ind_decl n],
-                    [mkrow EQ (map (fun i => (1, i)) inds ++ [(- Z.of_nat (length inds), AVar (VInd n))]) 0;
-                     mkrow LE [(1, ex); (-1, sy)] 0],
-                    [])
-               end
-           | _, _ => ([], [], [])
-           end)
-          (em_app (emit x) (emit y))
-    | Scale n f dis kid => emit kid
-    | Objective n kids => em_concat (map emit kids)
+        match parse x, parse y with
+        | PU sx ex ux ix, PU sy ey uy iy =>
+            match ex, sy with
+            | AConst _, AConst _ => []
+            | _, _ => [ind_decl n]
+            end
+        | _, _ => []
+        end
+    | Scale _ _ _ _ => []
+    | Objective _ _ => []
     end.
+
+  Definition own_rows (e : expr) : list row :=
+    match e with
+    | Choose n parts amount start dur util =>
+        match parse e with
+        | PNo => []
+        | PU _ _ _ _ =>
+            [mkrow EQ (map (fun p => (1, AVar (VAlloc n p))) (sched parts) ++ [(- amount, AVar (VInd n))]) 0]
+        end
+    | Alloc _ _ _ _ => []
+    | Min n kids =>
+        let rs := filter is_pu (map parse kids) in
+        let inds := filter is_var (map pu_ind rs) in
+        flat_map (fun r => [mkrow GE [(1, pu_start r); (-1, AVar (VStart n))] 0;
+                            mkrow LE [(1, pu_end r); (-1, AVar (VEnd n))] 0]) rs
+        ++ match inds with
+           | [] => []
+           | _ => [mkrow EQ (map (fun i => (1, i)) inds ++ [(- Z.of_nat (length inds), AVar (VInd n))]) 0]
+           end
+    | Max n kids =>
+        let rs := filter is_pu (map parse kids) in
+        let lb := list_min UINT_MAX (map (fun r => konst (pu_start r)) rs) in
+        [mkrow GE (map (fun r => (konst (pu_start r), pu_ind r)) rs
+                   ++ [(lb, AConst 1); (- lb, AVar (VInd n)); (-1, AVar (VStart n))]) 0;
+         mkrow LE (map (fun r => (konst (pu_end r), pu_ind r)) rs ++ [(-1, AVar (VEnd n))]) 0;
+         mkrow EQ (map (fun r => (1, pu_ind r)) rs ++ [(-1, AVar (VInd n))]) 0]
+    | LessThan n x y =>
+        match parse x, parse y with
+        | PU sx ex ux ix, PU sy ey uy iy =>
+            match ex, sy with
+            | AConst _, AConst _ => []
+            | _, _ =>
+                let inds := filter is_var [ix; iy] in
+                [mkrow EQ (map (fun i => (1, i)) inds ++ [(- Z.of_nat (length inds), AVar (VInd n))]) 0;
+                 mkrow LE [(1, ex); (-1, sy)] 0]
+            end
+        | _, _ => []
+        end
+    | Scale _ _ _ _ => []
+    | Objective _ _ => []
+    end.
+
+  Definition own_regs (e : expr) : list reg :=
+    match e with
+    | Choose n parts amount start dur util =>
+        match parse e with
+        | PNo => []
+        | PU _ _ _ _ =>
+            flat_map (fun p => map (fun t => (p, t, AVar (VAlloc n p))) (slots start dur)) (sched parts)
+        end
+    | Alloc n allocs start dur =>
+        flat_map (fun pa => map (fun t => (fst pa, t, AConst (snd pa))) (slots start dur)) allocs
+    | _ => []
+    end.
+
+  Definition e_vars (e : expr) : list vdecl := flat_map own_vars (subs e).
+  Definition e_rows (e : expr) : list row := flat_map own_rows (subs e).
+  Definition e_regs (e : expr) : list reg := flat_map own_regs (subs e).
 
   (* ------------------------------------------------- capacity rows (CapacityConstraintMap::translate) *)
   Definition key_eqb (a b : Z * Z) : bool := (fst a =? fst b) && (snd a =? snd b).
@@ -289,9 +323,7 @@ Section Parse.
     match e with
     | Objective n kids =>
         if forallb no_throw kids then
-          match emit e with
-          | (vs, rs, gs) => Ok {| cs_vars := vs; cs_rows := rs ++ cap_rows gs; cs_obj := pu_util (parse e) |}
-          end
+          Ok {| cs_vars := e_vars e; cs_rows := e_rows e ++ cap_rows (e_regs e); cs_obj := pu_util (parse e) |}
         else Err 1
     | _ => Err 1
     end.
@@ -377,33 +409,32 @@ End Parse.
 
 (* ---------------------------------------------------------------- observations *)
 (* usage of partition p at time tau by a list of placements *)
+Definition sumZ (l : list Z) : Z := fold_right Z.add 0 l.
 Definition pl_active (tau : Z) (p : placement) : bool := (pl_start p <=? tau) && (tau <? pl_end p).
 Definition alloc_amount (p : Z) (al : list (Z * Z * Z)) : Z :=
-  fold_right (fun x acc => (if fst (fst x) =? p then snd x else 0) + acc) 0 al.
-Definition usage (pls : list placement) (p tau : Z) : Z :=
-  fold_right (fun pl acc => (if pl_active tau pl then alloc_amount p (pl_allocs pl) else 0) + acc) 0 pls.
+  sumZ (map (fun x => if fst (fst x) =? p then snd x else 0) al).
+Definition pl_use (p tau : Z) (pl : placement) : Z :=
+  if pl_active tau pl then alloc_amount p (pl_allocs pl) else 0.
+Definition usage (pls : list placement) (p tau : Z) : Z := sumZ (map (pl_use p tau) pls).
 
 (* constant usage of the Allocation leaves at (p, tau) *)
-Fixpoint alloc_usage (e : expr) (p tau : Z) : Z :=
+Definition leaf_alloc (p tau : Z) (e : expr) : Z :=
   match e with
-  | Choose _ _ _ _ _ _ => 0
   | Alloc n allocs start dur =>
       if (start <=? tau) && (tau <? start + dur)
-      then fold_right (fun pa acc => (if fst pa =? p then snd pa else 0) + acc) 0 allocs else 0
-  | Min _ kids | Max _ kids | Objective _ kids => fold_right (fun k acc => alloc_usage k p tau + acc) 0 kids
-  | LessThan _ x y => alloc_usage x p tau + alloc_usage y p tau
-  | Scale _ _ _ kid => alloc_usage kid p tau
+      then sumZ (map (fun pa => if fst pa =? p then snd pa else 0) allocs) else 0
+  | _ => 0
   end.
+Definition alloc_usage (e : expr) (p tau : Z) : Z := sumZ (map (leaf_alloc p tau) (subs e)).
 
 (* leaves: (start, dur) of every Choose / Allocation *)
-Fixpoint leaf_spans (e : expr) : list (Z * Z) :=
+Definition leaf_span (e : expr) : list (Z * Z) :=
   match e with
   | Choose _ _ _ start dur _ => [(start, dur)]
   | Alloc _ _ start dur => [(start, dur)]
-  | Min _ kids | Max _ kids | Objective _ kids => flat_map leaf_spans kids
-  | LessThan _ x y => leaf_spans x ++ leaf_spans y
-  | Scale _ _ _ kid => leaf_spans kid
+  | _ => []
   end.
+Definition leaf_spans (e : expr) : list (Z * Z) := flat_map leaf_span (subs e).
 (* all leaf start times are congruent modulo the granularity *)
 Definition alignedb (g : Z) (e : expr) : bool :=
   match leaf_spans e with
